@@ -1,21 +1,24 @@
 #!/bin/bash
 # re-runs every recorded seeded change against the check of its property: applies seeded/<id>/patch.diff to /repo,
 # runs bin/check <property>, reverts. Prints one line per seed. The unchanged tree must be clean when this starts.
-cd /verif
+V="$(cd "$(dirname "$0")/.." && pwd)"; R="${VERIF_REPO:-/repo}"
+cd "$V"
+only="${1:-}"
 # the evidence files are rewritten by every run; keep the ones of the unchanged tree
 evsave=$(mktemp -d); cp -a evidence/. $evsave/
 for d in seeded/*/; do
   id=$(basename $d)
+  if [ -n "$only" ] && ! echo "$id" | grep -qE "$only"; then continue; fi
   prop=$(python3 -c "import json;print(json.load(open('$d/meta.json'))['property'])")
-  cd /repo
-  if ! git apply --check /verif/$d/patch.diff 2>/dev/null; then echo "$id $prop PATCH-DOES-NOT-APPLY"; cd /verif; continue; fi
-  git apply /verif/$d/patch.diff
-  out=$(cd /verif && ./bin/check $prop 2>&1); rc=$?
-  git apply -R /verif/$d/patch.diff
+  cd "$R"
+  if ! git apply --check $V/$d/patch.diff 2>/dev/null; then echo "$id $prop PATCH-DOES-NOT-APPLY"; cd "$V"; continue; fi
+  git apply $V/$d/patch.diff
+  out=$(cd "$V" && ./bin/check $prop 2>&1); rc=$?
+  git apply -R $V/$d/patch.diff
   n=$(echo "$out" | grep -c "^VIOLATION")
   first=$(echo "$out" | grep "failed obligation" | head -1 | sed 's/.*failed obligation[^:]*: //' | cut -c1-110)
   echo "$id $prop exit=$rc violations=$n  $first"
-  cd /verif
+  cd "$V"
 done
 cp -a $evsave/. evidence/; rm -rf $evsave
-git -C /repo status --short | grep -v "^??"
+git -C "$R" status --short | grep -v "^??"
